@@ -476,19 +476,28 @@ func (w *c05Worker) run(src string, k int64, tickArm int, tickKind string) c05Ru
 func runC05(r *harness.Run) {
 	th := r.Thorough()
 	progs := c05Programs(th)
-	r.Rule = fmt.Sprintf("%d base programs (protected region kind pcall/xpcall/Go PCall/protected CallByParam/coroutine.resume/wrap-in-pcall, nested up to 3 deep, inside caller loops, and entered from metamethods, sort comparators, gsub callbacks, iterators and host callbacks) x 12 body kinds; each is run fault-free under the step hook, then once per instruction boundary k with RaiseError injected at k (every k of the fault-free run), and once per host-function call with a Go panic / nil dereference / RaiseError / error(table) raised inside the host function. "+
+	r.Rule = fmt.Sprintf("%d base programs, each under the default options and again with Options.IncludeGoStackTrace (host-call faults and every third instruction boundary) (protected region kind pcall/xpcall/Go PCall/protected CallByParam/coroutine.resume/wrap-in-pcall, nested up to 3 deep, inside caller loops, and entered from metamethods, sort comparators, gsub callbacks, iterators and host callbacks) x 12 body kinds; each is run fault-free under the step hook, then once per instruction boundary k with RaiseError injected at k (every k of the fault-free run), and once per host-function call with a Go panic / nil dereference / RaiseError / error(table) raised inside the host function. "+
 		"Oracle per run: no Go panic escapes; the innermost active region reports failure exactly once; the trace is prefix(fault-free) ++ [handler once, for xpcall] ++ failure ++ fault-free continuation; white-box snapshot (call depth, registry top, error-handler flag, open upvalues) after the region equals the one before; the xpcall handler saw a deeper call stack; a canary program afterwards behaves as on a fresh state. "+
 		"non-trivial = distinct (program, fault point) with a non-empty trace. error(v) with values of every type is compared with the reference interpreter (family F-errval)", len(progs))
 	r.Assumptions = []string{"RaiseError at an instruction boundary is a fault gopher-lua itself produces there (context cancellation does exactly this)", "the step hook perturbs nothing: the hooked fault-free run is compared with an unhooked run of the same program"}
 	nw := harness.Workers()
 	var totalPoints int64
-	harness.ParallelShards(len(progs), func(wi, pi int) {
+	// every base program twice: under the default options and with Options.IncludeGoStackTrace, which
+	// changes what the recover handler of PCall does with a Go panic (second pass: host-call faults,
+	// the only ones that reach that code, and every third instruction boundary)
+	harness.ParallelShards(2*len(progs), func(wi, pi int) {
 		if r.Expired() {
 			r.NotExhaustive("deadline reached; some base programs not enumerated")
 			return
 		}
-		p := progs[pi]
-		w := newC05Worker(lua.Options{})
+		gostack := pi >= len(progs)
+		p := progs[pi%len(progs)]
+		opts := lua.Options{}
+		if gostack {
+			opts.IncludeGoStackTrace = true
+			p.name += "+gostacktrace"
+		}
+		w := newC05Worker(opts)
 		defer w.impl.Close()
 		// region kinds by id from the program name is not enough for nested programs: parse from text
 		kinds := map[int]string{}
@@ -643,6 +652,9 @@ func runC05(r *harness.Run) {
 		points := int64(0)
 		// (a) instruction-boundary faults
 		for k := int64(1); k <= nsteps; k++ {
+			if gostack && k%3 != 1 {
+				continue
+			}
 			fr := w.run(p.src, k, 0, "")
 			points++
 			ok := check(fr, base, cutAt(base.out.Events, k), k, 0, "", "injected fault")
